@@ -435,6 +435,75 @@ fn nb_trim(v: &str) -> Vec<String> {
     v.split('\n').map(|l| l.trim().to_string()).filter(|l| !l.is_empty()).collect()
 }
 
+/// per comment line: the name of the field whose line follows it (skipping comment and blank
+/// lines; `<value>` when a continuation line follows: the comment stands inside a value) and the
+/// sorted field names of the paragraph that field belongs to; `None` when nothing follows
+fn comment_anchors(text: &str) -> Vec<Anchor> {
+    let lines: Vec<&str> = text.split('\n').collect();
+    let is_blank = |l: &str| l.trim_matches(|c| c == ' ' || c == '\t' || c == '\r').is_empty();
+    let is_cont = |l: &str| l.starts_with(' ') || l.starts_with('\t');
+    let name_of = |l: &str| l.split(':').next().unwrap_or("").trim().to_string();
+    let mut v = vec![];
+    for (i, l) in lines.iter().enumerate() {
+        if !l.starts_with('#') {
+            continue;
+        }
+        let next = (i + 1..lines.len()).find(|j| !lines[*j].starts_with('#') && !is_blank(lines[*j]));
+        let anchor = next.map(|j| {
+            // the block of non-blank lines around line j
+            let mut a = j;
+            while a > 0 && !is_blank(lines[a - 1]) {
+                a -= 1;
+            }
+            let mut b = j;
+            while b + 1 < lines.len() && !is_blank(lines[b + 1]) {
+                b += 1;
+            }
+            let mut names: Vec<String> = (a..=b).filter(|k| !lines[*k].starts_with('#') && !is_cont(lines[*k])).map(|k| name_of(lines[k])).collect();
+            names.sort();
+            // in front of the first field of the paragraph = in front of the paragraph
+            let first = !(a..j).any(|k| !lines[k].starts_with('#'));
+            let f = if is_cont(lines[j]) {
+                "<value>".to_string()
+            } else if first {
+                format!("<paragraph>{}", name_of(lines[j]))
+            } else {
+                name_of(lines[j])
+            };
+            (f, names)
+        });
+        v.push((l.to_string(), anchor));
+    }
+    v
+}
+
+type Anchor = (String, Option<(String, Vec<String>)>);
+
+fn anchor_is_para(x: &Anchor) -> bool {
+    matches!(&x.1, Some((f, _)) if f.starts_with("<paragraph>"))
+}
+
+/// `loose`: a comment in front of a later field may now stand in front of that field as the first
+/// field of the paragraph
+fn anchor_same(before: &Anchor, after: &Anchor, loose: bool) -> bool {
+    match (&before.1, &after.1) {
+        (None, None) => true,
+        (Some((fb, nb)), Some((fa, na))) => {
+            if nb != na {
+                return false;
+            }
+            let (pb, pa) = (fb.strip_prefix("<paragraph>"), fa.strip_prefix("<paragraph>"));
+            match (pb, pa) {
+                (Some(_), Some(_)) => true,
+                (None, None) => fb == fa,
+                (None, Some(first)) => loose && first == fb,
+                (Some(_), None) => false,
+            }
+        }
+        _ => false,
+    }
+}
+
 fn comment_lines(text: &str) -> Vec<String> {
     text.split('\n').filter(|l| l.starts_with('#')).map(|l| l.to_string()).collect()
 }
@@ -630,6 +699,35 @@ pub fn handle(op: &str, a: &[&str]) -> Option<Resp> {
                         if cb != ca {
                             fail = Some(format!("comment lines changed: {:?} -> {:?}", cb, ca));
                         }
+                        // ... and each stays in front of the same field of the same paragraph, wherever
+                        // a sort order moves that paragraph or field (after seeded change C07-r8m1)
+                        if fail.is_none() && *level == "d" {
+                            let ab = comment_anchors(&before.text);
+                            let mut aa = comment_anchors(&o1.text);
+                            // a comment in front of a later field stays in front of that field (which may
+                            // have become the first); one in front of the first field stands in front of
+                            // the paragraph and stays there
+                            let mut lost = None;
+                            for pass in 0..2 {
+                                for x in ab.iter().filter(|x| anchor_is_para(x) == (pass == 1)) {
+                                    let want_para = anchor_is_para(x);
+                                    let found = aa
+                                        .iter()
+                                        .position(|y| y.0 == x.0 && anchor_same(x, y, false))
+                                        .or_else(|| aa.iter().position(|y| y.0 == x.0 && anchor_same(x, y, true)));
+                                    let _ = want_para;
+                                    match found {
+                                        Some(i) => {
+                                            aa.remove(i);
+                                        }
+                                        None => lost = lost.or(Some(x.clone())),
+                                    }
+                                }
+                            }
+                            if let Some(x) = lost {
+                                fail = Some(format!("a comment no longer stands in front of the same field / paragraph: before {:?}, unmatched now {:?}", x, aa));
+                            }
+                        }
                     }
                 }
                 // the result parses strictly and re-reads to the content the returned object reports
@@ -782,6 +880,11 @@ pub fn generate_c07(tier: &str, seed: u64, out: &mut Out) {
         "B: 1\n\nA: 2",
         "Package: b\nX: 1\n\nPackage: a",
         "Package: b\n\n# c\nPackage: a\nY: 2",
+        // a comment block set off by a blank line in front of the FIRST paragraph, which a
+        // paragraph order moves away from the front: it travels with that paragraph
+        "# header\n\nPackage: b\n\nPackage: a\n",
+        "# h1\n# h2\n\n\nPackage: z\nX: 1\n\n# about a\nPackage: a\n\nPackage: m\n",
+        "# header\n\n# own\nPackage: b\n\nPackage: a",
         // comment lines inside a value: before the first text, between lines, last
         "A:\n #c\n b\n",
         "A:\n # c\n",
